@@ -226,10 +226,10 @@ def certified_ln(ctx):
 
 # ----------------------------------------------------------------------------- main parts
 
-def run_models(ctx, tg, dis):
+def run_models(ctx, tg, dis, only=None):
     rng = ctx.rng
-    cases = []
-    reps = 1 if ctx.quick() else 12
+    cases = list(only) if only is not None else []
+    reps = 0 if only is not None else 1 if ctx.quick() else 12
     k = 0
     cert = certified_ln(ctx)
     for rep in range(reps):
@@ -311,8 +311,8 @@ def run_models(ctx, tg, dis):
                               sig=dict(kind="model", clause="value", model=c.kind))
                 c.ok = False
         ctx.case_done(("model", c.cid), nontriv and c.n >= 3)
-    ctx.sample(dict(cases[0].replay(), first_samples=sv(cases[0].v, 3)))
-    ctx.sample(dict(cases[1].replay(), first_samples=sv(cases[1].v, 3)))
+    for c in cases[:2]:
+        ctx.sample(dict(c.replay(), first_samples=sv(c.v, 3)))
     return cases
 
 
@@ -415,10 +415,23 @@ def run_sums(ctx, tg, dis):
         itext.append("sum %s %d %d %s %s\n" % (cid, n, m, flat(a), flat(b)))
         mtext.append("sum %s %d %d %s %s\n" % (cid, n, m, qflat(a), qflat(b)))
         ctx.count("sum:" + ("equal" if m == n else "longer" if m > n else "shorter"))
-    rc, out, err = run_driver(tg["impl_imp"], "".join(itext))
+    short = [k for k, cid in enumerate(meta) if meta[cid][1] < meta[cid][0]]
+    rc, out, err = run_driver(tg["impl_imp"], "".join(t for k, t in enumerate(itext) if k not in short))
     if rc != 0:
         raise RuntimeError("impl_imp (sum): rc=%d %s" % (rc, err[-500:]))
     impl = parse_cases(out)
+    rc, out, err = run_driver(tg["impl_imp"], "".join(itext[k] for k in short))
+    impl.update(parse_cases(out))
+    if rc != 0:
+        done = [cid for cid in meta if cid in impl and "out" in impl[cid]]
+        first = [cid for k, cid in enumerate(meta) if k in short and cid not in done][0]
+        n, m, a, b = meta[first]
+        ctx.violation("impl-oracle", "operator+= with a shorter right-hand side crashes (rc=%d)" % rc,
+                      case=dict(kind="sum", n=n, m=m, lhs=[[fhex(x), fhex(y)] for x, y in a], rhs=[[fhex(x), fhex(y)] for x, y in b]),
+                      observed="process died", expected="pointwise sum", sig=dict(kind="sum", clause="sum", short_rhs=True))
+        for cid in list(meta):
+            if cid not in done:
+                del meta[cid]
     rc, out, err = run_driver(vp_coq.model_path("imp"), "".join(mtext))
     if rc != 0:
         raise RuntimeError("model_imp (sum): rc=%d %s" % (rc, err[-500:]))
@@ -437,6 +450,101 @@ def run_sums(ctx, tg, dis):
         ctx.case_done(("sum", cid), n > 1)
 
 
+# ----------------------------------------------------------------------------- explored only (no theorem)
+
+PP_NEAR_FS = 1e-3        # |Z_pp - Z_fs| <= 1e-3 |Z_fs| for harmonics >= 10 n_c   (observed 1.3e-4: the rounded prefactor)
+PP_SUPPRESSED = 1e-4     # Re Z_pp <= 1e-4 Re Z_fs for harmonics <= n_c/4        (observed 2.3e-6 at n_c/4)
+ONE_SIDED = 1e-2         # wake energy on the wrong side <= 1e-2 of the right side (observed <= 3e-4 for nmax >= 1024)
+
+
+def cutoff_harmonic(R, g):
+    return math.sqrt(2.0 / 3.0) * (math.pi * R / g) ** 1.5
+
+
+def run_explore(ctx, tg):
+    rng = ctx.rng
+    cnt = 5 if ctx.quick() else 40
+    text, meta = [], {}
+    for i in range(2 * cnt):
+        R, g = loguni(rng, 0.5, 30), loguni(rng, 0.004, 0.1)
+        while R / g > 4000:
+            g *= 2
+        n = rng.randint(33, 65)
+        f0 = f32(C_LIGHT / (2 * math.pi * R))
+        nc = cutoff_harmonic(R, g)
+        X = loguni(rng, 25, 100) if i % 2 == 0 else loguni(rng, 0.2, 2)
+        fmax = f32(f0 * nc * X)
+        cid = "x%d" % i
+        meta[cid] = dict(R=R, g=g, n=n, f0=f0, fmax=fmax, nc=nc, regime="high" if i % 2 == 0 else "low")
+        text.append("model %s pp %d %s %s %s\nmodel %s_fs fs %d %s %s\n" % (cid, n, fhex(f0), fhex(fmax), fhex(g), cid, n, fhex(f0), fhex(fmax)))
+    rc, out, err = run_driver(tg["impl_imp"], "".join(text), timeout=1200)
+    if rc != 0:
+        raise RuntimeError("impl_imp (explore pp): rc=%d %s" % (rc, err[-500:]))
+    r = parse_cases(out)
+    for cid, m in meta.items():
+        pp, fs = cvec(r[cid]["vec"][0]), cvec(r[cid + "_fs"]["vec"][0])
+        case = dict(kind="explore-pp", **{k: (fhex(v) if isinstance(v, float) else v) for k, v in m.items()})
+        if not (finite(pp) and finite(fs)):
+            ctx.violation("impl-oracle", "parallel-plates or free-space samples are not finite", case=case, sig=dict(kind="explore", clause="finite"))
+            continue
+        delta = Fraction(m["fmax"]) / Fraction(m["f0"]) / (m["n"] - 1)
+        used = 0
+        for i in range(1, m["n"] // 2 + 1):
+            x = float(i * delta) / m["nc"]
+            a, b = (float(pp[i][0]), float(pp[i][1])), (float(fs[i][0]), float(fs[i][1]))
+            if x >= 10:
+                used += 1
+                d = math.hypot(a[0] - b[0], a[1] - b[1]) / math.hypot(*b)
+                if d > PP_NEAR_FS:
+                    ctx.violation("impl-oracle", "parallel plates does not tend to free space at %.3g times the shielding cutoff" % x, case=dict(case, index=i),
+                                  observed=dict(pp=a, fs=b, rel=d), expected="relative difference <= %g" % PP_NEAR_FS, sig=dict(kind="explore", clause="pp-to-fs"))
+                    break
+            elif x <= 0.25:
+                used += 1
+                if a[0] > PP_SUPPRESSED * b[0]:
+                    ctx.violation("impl-oracle", "parallel plates is not suppressed at %.3g times the shielding cutoff" % x, case=dict(case, index=i),
+                                  observed=dict(pp=a, fs=b), expected="Re Z_pp <= %g Re Z_fs" % PP_SUPPRESSED, sig=dict(kind="explore", clause="pp-suppressed"))
+                    break
+        ctx.count("explore:pp-" + m["regime"])
+        ctx.case_done(("explore", cid), used > 0)
+    # causality: impulse response through ElectricField::wakePotential()
+    text, meta = [], {}
+    nx = 64
+    for i in range(cnt):
+        nmax = rng.choice([1024, 2048, 1536, 1025])
+        sigma, x0 = rng.uniform(1.5, 3.0), nx / 2 + rng.uniform(-3, 3)
+        frev, fmax = f32(loguni(rng, 1e5, 3e7)), f32(loguni(rng, 1e10, 5e12))
+        s, b = loguni(rng, 1e5, 6e7), loguni(rng, 0.004, 0.05)
+        for kind in ("fs", "rw"):
+            cid = "w%d%s" % (i, kind)
+            meta[cid] = dict(model=kind, nx=nx, nmax=nmax, sigma=sigma, x0=x0, frev=frev, fmax=fmax, s=s, b=b)
+            extra = "" if kind == "fs" else " %s %s %s %s" % (fhex(C_LIGHT / frev), fhex(s), fhex(0.0), fhex(b))
+            text.append("wake %s %d %d %s %s %s %s %s%s\n" % (cid, nx, nmax, kind, fhex(sigma), fhex(x0), fhex(frev), fhex(fmax), extra))
+    rc, out, err = run_driver(tg["impl_imp"], "".join(text), env=vp_build.xdg_env(), timeout=1200)
+    if rc != 0:
+        raise RuntimeError("impl_imp (explore wake): rc=%d %s" % (rc, err[-500:]))
+    r = parse_cases(out)
+    for cid, m in meta.items():
+        w = [parse_c(t) for t in r[cid]["wake"][0]]
+        case = dict(kind="explore-wake", **{k: (fhex(v) if isinstance(v, float) else v) for k, v in m.items()})
+        if any(isinstance(v, str) for v in w):
+            ctx.violation("impl-oracle", "wake potential is not finite", case=case, sig=dict(kind="explore", clause="finite"))
+            continue
+        w = [float(v) for v in w]
+        lo_end, hi_start = int(math.floor(m["x0"] - 4 * m["sigma"])), int(math.ceil(m["x0"] + 4 * m["sigma"])) + 1
+        below, above = sum(v * v for v in w[:lo_end]), sum(v * v for v in w[hi_start:])
+        # increasing q is ahead of the source: free space acts ahead only, the resistive wall behind only
+        wrong, right = (below, above) if m["model"] == "fs" else (above, below)
+        if not (right > 0 and wrong <= ONE_SIDED * right):
+            ctx.violation("impl-oracle", "impulse response of the %s impedance is not one-sided (%s)" % (
+                "free-space" if m["model"] == "fs" else "resistive-wall", "ahead only" if m["model"] == "fs" else "behind only"),
+                case=case, observed=dict(energy_behind=below, energy_ahead=above), expected="wrong side <= %g of the right side" % ONE_SIDED,
+                sig=dict(kind="explore", clause="causality", model=m["model"]))
+        ctx.count("explore:wake-" + m["model"])
+        ctx.case_done(("explore", cid), True)
+    ctx.extra["explored_thresholds"] = dict(pp_near_fs=PP_NEAR_FS, pp_suppressed=PP_SUPPRESSED, one_sided=ONE_SIDED)
+
+
 def run(ctx):
     ctx.rule = ("model cases: every sample count 2..65 (even and odd) for each of the five classes, random frequency ranges "
                 "(1e9..5e12 Hz), revolution frequencies (1e5..3e7 Hz), bending radii 0.5..50 m, gaps 4..100 mm, conductivities "
@@ -452,6 +560,7 @@ def run(ctx):
         run_models(ctx, tg, dis)
         run_factory(ctx, tg, dis, tmp)
         run_sums(ctx, tg, dis)
+        run_explore(ctx, tg)
     finally:
         shutil.rmtree(tmp, ignore_errors=True)
     ctx.extra["correspondence_disagreements"] = len(dis)
@@ -463,4 +572,24 @@ def run(ctx):
 
 
 def replay(ctx, rp):
-    run(ctx)
+    """re-evaluates the recorded case (factory / model) on the current tree; other kinds re-run the check"""
+    case = rp.get("case") or {}
+    fx = lambda v: v if isinstance(v, bool) else float.fromhex(v)
+    if case.get("kind") in ("factory", "model"):
+        ctx.rule = "replay of one recorded %s case" % case["kind"]
+        coq = vp_coq.full_check("C16", ctx, fams=("imp",))
+        tg = ctx.build(harness=("impl_imp",))
+        dis = []
+        tmp = tempfile.mkdtemp(prefix="c16_")
+        try:
+            p = {k: fx(v) for k, v in case["params"].items()}
+            if case["kind"] == "factory":
+                fd = None if case.get("file") is None else [(float.fromhex(a), float.fromhex(b)) for a, b in case["file"]]
+                run_factory(ctx, tg, dis, tmp, only=[FCase("r0", case["n"], p, fd, case.get("tags"))])
+            else:
+                run_models(ctx, tg, dis, only=[MCase("r0", case["model"], case["n"], p)])
+        finally:
+            shutil.rmtree(tmp, ignore_errors=True)
+        conclude(ctx, coq, dis)
+    else:
+        run(ctx)
